@@ -217,6 +217,10 @@ var (
 	// ErrInvalidHELO is returned when the HELO/EHLO value is invalid due to being empty.
 	ErrInvalidHELO = errors.New("invalid HELO/EHLO value - must not be empty")
 
+	// ErrInvalidHELOChars is returned when the HELO/EHLO value contains whitespace or control characters,
+	// which would add further arguments to the HELO/EHLO command line.
+	ErrInvalidHELOChars = errors.New("invalid HELO/EHLO value - must not contain whitespace or control characters")
+
 	// ErrInvalidTLSConfig is returned when the provided TLS configuration is invalid or nil.
 	ErrInvalidTLSConfig = errors.New("invalid TLS config")
 
@@ -431,6 +435,11 @@ func WithHELO(helo string) Option {
 	return func(c *Client) error {
 		if helo == "" {
 			return ErrInvalidHELO
+		}
+		for i := 0; i < len(helo); i++ {
+			if helo[i] <= ' ' || helo[i] == 0x7f {
+				return ErrInvalidHELOChars
+			}
 		}
 		c.helo = helo
 		return nil
